@@ -5,7 +5,7 @@
 (* the judge of observed tokens / tree node spans.                         *)
 (*                                                                         *)
 (* Text = sequence of lines, a line = sequence of code points.  Character  *)
-(* classes: SPACE (32 and form feed 12, which is whitespace but NOT a line break), WORD (97 'a', 98 'b'), NUM (49 '1'), span opener   *)
+(* classes: SPACE (32, tab 9 - ONE column wide - and form feed 12, which is whitespace but NOT a line break), WORD (97 'a', 98 'b'), NUM (49 '1'), span opener   *)
 (* 60 '<' and closer 62 '>' (token CMT, may close on a later line);        *)
 (* a quoted string '"' ... '"' on one line (token STR: the pattern matches *)
 (* more than the value it reports); anything else matches no pattern.      *)
@@ -20,7 +20,7 @@
 EXTENDS Naturals, Integers, Sequences, FiniteSets, TLC, Json, IOUtils
 Cases == ndJsonDeserialize(IOEnv.CASES)
 
-Class(c) == IF c = 32 \/ c = 12 THEN "SPACE" ELSE IF c \in {97, 98} THEN "WORD" ELSE IF c = 49 THEN "NUM"
+Class(c) == IF c \in {32, 12, 9} THEN "SPACE" ELSE IF c \in {97, 98} THEN "WORD" ELSE IF c = 49 THEN "NUM"
             ELSE IF c = 60 THEN "OPEN" ELSE IF c = 62 THEN "CLOSE" ELSE IF c = 34 THEN "QUOTE" ELSE "NONE"
 
 VARIABLES tid, ln, col, toks, open, phase, verdict
@@ -28,7 +28,7 @@ vars == <<tid, ln, col, toks, open, phase, verdict>>
 C == Cases[tid]
 (* str input is split at newlines and every line is right-stripped before tokenizing *)
 RECURSIVE RStrip(_)
-RStrip(s) == IF s # <<>> /\ s[Len(s)] \in {32, 12} THEN RStrip(SubSeq(s, 1, Len(s) - 1)) ELSE s
+RStrip(s) == IF s # <<>> /\ s[Len(s)] \in {32, 12, 9} THEN RStrip(SubSeq(s, 1, Len(s) - 1)) ELSE s
 Lines == IF C.aslist THEN C.lines ELSE [i \in 1 .. Len(C.lines) |-> RStrip(C.lines[i])]
 Cur == Lines[ln]
 NoSpan == [on |-> FALSE, sl |-> 0, sc |-> 0, body |-> <<>>]
